@@ -12,12 +12,47 @@ def idhex(v):
     return int(v).to_bytes(32, 'little').hex()
 
 
-def alist(entries, omit_all=False):
-    """entries: list of (idx, value or None for 'omit from keys') sorted by idx"""
+def alist(entries, omit_all=False, hid=None):
+    """entries: list of (idx, value or None for 'omit from keys') sorted by idx.
+    hid: optional {idx: id} - the id field carried by hidden entries (the API gives it no meaning, so any value must be ignored)"""
     s = 'o%d' % (1 if omit_all else 0)
     for idx, v in entries:
-        s += ',%d:%s:%d' % (idx, idhex(0 if v is None else v), 1 if v is None else 0)
+        s += ',%d:%s:%d' % (idx, idhex((hid or {}).get(idx, 0) if v is None else v), 1 if v is None else 0)
     return s
+
+
+def hidden_ids(entries, rng, other=None):
+    """ids for the hidden entries of a list: zero (what the Go binding sends), arbitrary bits, another value of the same list, or -
+    most hostile - exactly the value the same slot carries in a related list (`other`: list or pattern), i.e. a caller that copied an
+    attribute and only toggled the flag"""
+    rel = {}
+    if other is not None:
+        if isinstance(other, tuple):
+            rel = {i: s[1] for i, s in enumerate(other) if isinstance(s, tuple)}
+        else:
+            rel = {i: v for i, v in other if v is not None}
+    own = [v for _, v in entries if v is not None]
+    out = {}
+    for idx, v in entries:
+        if v is not None:
+            continue
+        t = rng.random()
+        if idx in rel and t < 0.6:
+            out[idx] = rel[idx]
+        elif t < 0.7:
+            out[idx] = 0
+        elif t < 0.8 and own:
+            out[idx] = rng.choice(own)
+        elif t < 0.9:
+            out[idx] = rng.choice([1, R - 1, R, R + 1, (1 << 256) - 1])
+        else:
+            out[idx] = rng.getrandbits(256)
+    return out
+
+
+def alist_pair(frm, to, rng, omit_all_to=False):
+    """render two related lists (adjust from -> to); hidden entries of each tend to carry the other's value for that slot"""
+    return alist(frm, False, hidden_ids(frm, rng, to)), alist(to, omit_all_to, hidden_ids(to, rng, frm))
 
 
 def fixed_list(pattern):
@@ -127,7 +162,7 @@ class Script:
 
     def keyop(self, op, pid, l, entries, omit_all, parent=None, parent_pattern=None, alloc=None):
         kid = self.newkey()
-        al = alist(entries, omit_all)
+        al = alist(entries, omit_all, hidden_ids(entries, self.rng, parent_pattern))
         go_alloc = max(0, l - len(entries)) if alloc is None else alloc
         if parent is None:
             pat = keygen_pattern(l, entries, omit_all)
